@@ -89,3 +89,51 @@ pub fn record(spec: RecSpec) -> Enr {
         e
     })
 }
+
+thread_local! {
+    static PADDED: RefCell<HashMap<(u32, u8, u16), Enr>> = RefCell::new(HashMap::new());
+}
+
+/// A record of pool key `key` with an IPv4 address and an extra "pad" field so that its RLP
+/// encoding has (close to) `target_size` bytes; `target_size` is clamped to the 300-byte maximum.
+/// Returns the largest record not exceeding the target.
+pub fn padded_record(key_idx: u32, seq: u8, target_size: u16) -> Enr {
+    let target = target_size.min(300);
+    PADDED.with(|m| {
+        if let Some(e) = m.borrow().get(&(key_idx, seq, target)) {
+            return e.clone();
+        }
+        let k = key(key_idx);
+        let build = |pad: usize| -> Option<Enr> {
+            let mut b = Enr::builder();
+            b.seq(seq as u64)
+                .ip4(Ipv4Addr::new(10, 2, (key_idx >> 8) as u8, (key_idx % 250 + 1) as u8))
+                .udp4(9000 + (key_idx % 1000) as u16);
+            if pad > 0 {
+                let bytes = vec![0xEEu8; pad];
+                b.add_value("pad", &bytes.as_slice());
+            }
+            b.build(&k).ok()
+        };
+        let base = build(0).expect("base record");
+        let mut best = base.clone();
+        if (base.size() as u16) < target {
+            // search the pad length giving the largest size <= target
+            let mut pad = (target as usize).saturating_sub(base.size());
+            loop {
+                if let Some(e) = build(pad) {
+                    if e.size() <= target as usize {
+                        best = e;
+                        break;
+                    }
+                }
+                if pad == 0 {
+                    break;
+                }
+                pad -= 1;
+            }
+        }
+        m.borrow_mut().insert((key_idx, seq, target), best.clone());
+        best
+    })
+}
